@@ -1340,7 +1340,19 @@ func addrEscapes(v ssa.Value, depth int) bool {
 				return true
 			}
 		case *ssa.MakeClosure:
-			// captured: fine as long as the closure is only deferred or called here
+			// captured read-only by our own closure code: nobody can write the cell through it
+			if fn, ok := in.Fn.(*ssa.Function); ok {
+				ro := true
+				for bi, b := range in.Bindings {
+					if b == v && bi < len(fn.FreeVars) && !freeVarReadOnly(fn.FreeVars[bi], 0) {
+						ro = false
+					}
+				}
+				if ro {
+					continue
+				}
+			}
+			// otherwise fine as long as the closure is only deferred or called here
 			crefs := in.Referrers()
 			if crefs == nil {
 				return true
@@ -1365,4 +1377,34 @@ func addrEscapes(v ssa.Value, depth int) bool {
 		}
 	}
 	return false
+}
+
+// freeVarReadOnly: the captured variable is only loaded from (possibly by nested closures).
+func freeVarReadOnly(fv *ssa.FreeVar, depth int) bool {
+	if depth > 3 {
+		return false
+	}
+	refs := fv.Referrers()
+	if refs == nil {
+		return false
+	}
+	for _, in := range *refs {
+		switch in := in.(type) {
+		case *ssa.DebugRef:
+		case *ssa.UnOp:
+		case *ssa.MakeClosure:
+			fn, ok := in.Fn.(*ssa.Function)
+			if !ok {
+				return false
+			}
+			for bi, b := range in.Bindings {
+				if b == ssa.Value(fv) && bi < len(fn.FreeVars) && !freeVarReadOnly(fn.FreeVars[bi], depth+1) {
+					return false
+				}
+			}
+		default:
+			return false
+		}
+	}
+	return true
 }
